@@ -59,6 +59,9 @@ def e1_check(pid, tier, replay):
         reported = []
         known = []
         os.makedirs(os.path.join(EVID, "replay"), exist_ok=True)
+        for old in os.listdir(os.path.join(EVID, "replay")):
+            if old.startswith(pid + "-"):
+                os.unlink(os.path.join(EVID, "replay", old))
         for i, v in enumerate(viols):
             sc = script_by_id(d, v["script"])
             lines = trace_lines(v["trace"], v["script"])
